@@ -71,6 +71,14 @@ def cases(rng, tier):
         d2, _k = rand_update(rng)
         first = ["setpal 1 " + dtok(d1)] if rng.random() < 0.5 else []
         yield Case(["new 1 " + s] + first + ["copyobj 2 1", "o 2 html", "setpal %d %s" % (rng.choice([1, 2]), dtok(d2)), "o 1 html", "o 2 html"], {"kind": "shallow-copy"})
+    # a shuffle with EVERY position frozen hands back a new object holding the same sequence: it starts with the default palette, and
+    # updates of either object leave the other's rendering alone (also for one-residue chains)
+    for _ in range(15 if tier == "quick" else 150):
+        s = gen.rand_seq(rng, rng.choice(gen.KINDS), rng.choice([1, 2, rng.randint(3, 30)]))
+        d1, _k = rand_update(rng)
+        d2, _k = rand_update(rng)
+        first = ["setpal 1 " + dtok(d1)] if rng.random() < 0.7 else []
+        yield Case(["new 1 " + s] + first + ["o 1 html", "shufall 2 1", "o 2 html", "setpal %d %s" % (rng.choice([1, 2]), dtok(d2)), "o 1 html", "o 2 html"], {"kind": "all-frozen-shuffle"})
     for c in interleaved_cases(rng, tier):
         yield c
     # objects handed back by the library's own moves / shuffles (also with frozen sets, also from a parent whose cache is warm)
